@@ -1,6 +1,9 @@
 package art
 
 func NewCompoundTree[K any, V any](bck BinaryComparableKey[K]) Tree[K, V] {
+	if verifRecording {
+		return verifWrap[K, V]("compound", &compoundSortedTree[K, V]{bck: bck}, bck)
+	}
 	return &compoundSortedTree[K, V]{
 		bck: bck,
 	}
